@@ -66,7 +66,21 @@ def ring_templates():
     reg("pub_minus_priv", [(2,), (2,)], lambda g, x: g.sub(g.const(T.array((2,), ST), ["7", "1"]), g.mul(x[0], x[1])))
     reg("matmul_chain", [(2, 2), (2, 2), (2,)], lambda g, x: g.matmul(g.matmul(x[0], x[1]), x[2]))
     reg("dot_stack", [(2,), (2,)], lambda g, x: g.stack([g.dot(x[0], x[1]), g.sum(x[0], [0])], [2]))
+    # a private operand broadcast against a LARGER public one, followed by a shape-sensitive share-wise op
+    for opn in ("add", "sub", "mul"):
+        for flip in (False, True):
+            for post, pf in (("sum0", lambda g, r: g.sum(r, [0])), ("cumsum0", lambda g, r: g.cumsum(r, 0)), ("get1", lambda g, r: g.get(r, [1])),
+                             ("reshape", lambda g, r: g.reshape(r, T.array((3, 2), ST))), ("perm", lambda g, r: g.permute_axes(r, [1, 0]))):
+                def mk(opn=opn, flip=flip, pf=pf):
+                    return lambda g, x: pf(g, getattr(g, opn)(x[1], x[0]) if flip else getattr(g, opn)(x[0], x[1]))
+                reg("bcast_%s%s_%s" % (opn, "_flip" if flip else "", post), [(3,), (2, 3)], mk())
+                FORCED["T:bcast_%s%s_%s" % (opn, "_flip" if flip else "", post)] = [[0, "public"], ["shared", "public"], ["public", 2]]
+    reg("dot_rank3", [(2, 2), (2, 2, 2)], lambda g, x: g.dot(x[0], x[1]))
+    reg("dot_rank3_v", [(2,), (2, 2, 3)], lambda g, x: g.dot(x[0], x[1]))
     return t
+
+
+FORCED = {}
 
 
 ST = "?st"
@@ -152,7 +166,12 @@ def gen_cases(tier, seed, purpose="c01"):
     for name, spec in ring_templates().items():
         for st in ring_types(k, seed, tier):
             prog, in_types = instantiate_template(name, spec, st)
-            for owners, outs, mode in pick_configs(len(in_types), k, seed, n_cfg, ordered=(tier == "thorough")):
+            cfgs = pick_configs(len(in_types), k, seed, n_cfg, ordered=(tier == "thorough"))
+            for fi, ov in enumerate(FORCED.get("T:" + name, [])):
+                if tier == "thorough" or (fi + k + seed) % 3 == 0 or fi == 0:
+                    cfgs.append((ov, gen.output_sets()[(k + fi + seed) % 8], MODES[(k + fi) % 3]))
+            cfgs = cfgs[-(n_cfg + 1):] if name.startswith("bcast_") and tier == "quick" else cfgs
+            for owners, outs, mode in cfgs:
                 k += 1
                 cases.append(dict(id="T:%s:%s:%s:%s:%s" % (name, st, "".join(str(o)[0] for o in owners), "".join(map(str, outs)) or "-", mode),
                                   template="T:" + name, st=st, prog=prog, in_types=[t.to_json() for t in in_types],
